@@ -90,13 +90,16 @@ CHECKS["C09"] = dict(
 CHECKS["C08"] = dict(
     category="model_checking", design_ref="DESIGN.md §5 C08, §11",
     technique="TLA+/TLC: NcSession.tla (message-id counter, server reply policies now/late/never/write-error, echo, store keyed by id, fetch, expiry) checked for every policy vector and interleaving; "
-              "its terminal states are replayed as sessions on netconf.Driver for both framings with the server model implementing the policies",
+              "its terminal states are replayed as sessions on netconf.Driver for both framings with the server model implementing the policies; NcReadLoop.tla refines delivery to the read loop's "
+              "decision procedure over every cut of the token stream into reads (TLC: OwnReply/NoLoss/Done), and its behaviours are replayed read by read through a scripted transport",
     text="NcSession.tla shows ids 101,102,..., OwnReply, NoLoss and termination for every vector of reply policies over 3 (quick) / 4 (thorough) requests, echoing or not, for every order of delivery, fetch and "
          "expiry. Every terminal state is a scenario: the harness runs the calls (get, get-config, rpc, lock) against a server model that answers at once, holds the reply until the next request (delivered in "
          "reads of its own, possibly together with the echo of that request), never answers, or lets the client's write of the trailing return fail after the request went out; it compares the message-id the "
-         "server decoded for each request with the reply each call returned (own id and request number), the error class of unanswered calls, and the id sequence.",
+         "server decoded for each request with the reply each call returned (own id and request number), the error class of unanswered calls, and the id sequence. NcReadLoop.tla models the read loop itself "
+         "(buffer, delimiter test, echo removal, filing under the first id) against every segmentation allowed by the quantifier, including echoes delayed past a timeout; the older loop versions must be rejected by TLC; "
+         "every behaviour (N = 2) on which an older loop version would lose a reply, plus a seeded sample of the rest, is replayed on netconf.Driver with reads released in the behaviour's order, followed by a probe call.",
     note="Trusted: TLC, the server model (strict decoder, read boundaries at server-message ends). Calls answered at once have a 4 s deadline so NoLoss is not a timing race; candidates are re-executed alone. "
-         "One genuine defect found and repaired (reply lost when a late reply shares a read with the echo of the next request).")
+         "Two genuine defects found and repaired (reply lost when a late reply shares a read with the echo of the next request; the same with two echoes pending - the second one found by TLC first).")
 CHECKS["C03"] = dict(
     category="model_checking", design_ref="DESIGN.md §5 C03, §11",
     technique="TLA+/TLC trace validation: NcReqScn.tla generates NETCONF sessions, the harness records every request as the server model received it, and NcRequestTrace.tla (reusing NcFraming!Strict) "
